@@ -109,7 +109,14 @@ func checkC13(c *Check) {
 			case "Write":
 				c.Cond(fn == mW, key, p.Pos(in.Pos()), "underlying Write only in responseWriter.Write", "underlying Write is called outside responseWriter.Write (implicit status / HEAD suppression / size bypassed)")
 			case "Flush":
-				c.Cond(fn == mF, key, p.Pos(in.Pos()), "underlying Flush only in responseWriter.Flush", "underlying Flush is called outside responseWriter.Flush (implicit status bypassed)")
+				if fn == mF {
+					c.OK(key, p.Pos(in.Pos()), "underlying Flush only in responseWriter.Flush", 1)
+				} else if committedBefore(fn, ci) {
+					// e.g. an opt-in flush right after the forwarded Write: the status line is out by then
+					c.OK(key, p.Pos(in.Pos()), "underlying Flush in "+p.FuncKey(fn)+" is reachable only after a status line was sent (Written(), or the implicit WriteHeader(200) through the wrapper)", 1)
+				} else {
+					c.Bad(key, p.Pos(in.Pos()), "underlying Flush is called outside responseWriter.Flush (implicit status bypassed)")
+				}
 			case "Header", "Hijack", "Push":
 				c.OK(key, p.Pos(in.Pos()), "pass-through method with no status/body effect", 1)
 			default:
@@ -321,6 +328,18 @@ func checkC13(c *Check) {
 			if app != nil && callName(&app.Call) == "builtin.append" && fieldOf(addrOfLoad(app.Call.Args[0])) == fHooks && appendsOnly(app.Call.Args[1], vParam(m, 1)) {
 				okAppend = true
 				c.OK(key, p.Pos(st.Pos()), "beforeFuncs = append(beforeFuncs, fn): registration order preserved", 1)
+			} else if isEmptyFreshSlice(st.Val) {
+				// pre-sizing: an empty slice with capacity, only where the list is still empty
+				isHooks := func(v ssa.Value) bool { return fieldOf(addrOfLoad(strip(v))) == fHooks }
+				emptyList := union(
+					edgesWhere(m, cCmp(token.EQL, isHooks, vNil), true),
+					edgesWhere(m, cCmp(token.EQL, vLen(isHooks), vConstInt(0)), true),
+				)
+				if okG, _ := guardedBy(m, emptyList, isInstr(st)); okG && len(emptyList) > 0 {
+					c.OK(key, p.Pos(st.Pos()), "an empty list is pre-sized where no hook is registered yet", 1)
+				} else {
+					c.Bad(key, p.Pos(st.Pos()), "Before() replaces the hook list by an empty one although hooks may be registered: they are dropped")
+				}
 			} else {
 				c.Bad(key, p.Pos(st.Pos()), "Before() does not append the hook at the end of the list: "+vstr(st.Val))
 			}
@@ -609,4 +628,40 @@ func isAtomicStore(n string) bool {
 // vAtomicLoad matches atomic.LoadInt32(addr) / addr.Load() for an address matched by addr.
 func vAtomicLoad(addr VM) VM {
 	return vOr(vCall("sync/atomic.LoadInt32", addr), vCall("(*sync/atomic.Int32).Load", addr))
+}
+
+// committedBefore: within a method of the wrapper, every path to u has Written()==true (or Status() != 0)
+// or passes WriteHeader(200) through the wrapper.
+func committedBefore(m *ssa.Function, u ssa.CallInstruction) bool {
+	if m.Signature.Recv() == nil || len(m.Params) == 0 {
+		return false
+	}
+	cut := union(
+		edgesWhere(m, cBool(vCall(rwT+".Written", vParam(m, 0))), true),
+		edgesWhere(m, cCmp(token.NEQ, vCall(rwT+".Status", vParam(m, 0)), vConstInt(0)), true),
+	)
+	implicit := func(in ssa.Instruction) bool {
+		ci, ok := in.(ssa.CallInstruction)
+		if !ok || callName(ci.Common()) != rwT+".WriteHeader" {
+			return false
+		}
+		a := ci.Common().Args
+		return vParam(m, 0)(a[0]) && vConstInt(200)(a[1])
+	}
+	in, _ := Query{Fn: m, Cut: cut, Avoid: implicit}.FromEntry(isInstr(u))
+	return in == nil
+}
+
+// isEmptyFreshSlice: make([]T, 0, n) in either SSA shape (MakeSlice, or new [n]T sliced [:0]).
+func isEmptyFreshSlice(v ssa.Value) bool {
+	switch x := strip(v).(type) {
+	case *ssa.MakeSlice:
+		return vConstInt(0)(x.Len)
+	case *ssa.Slice:
+		if al, ok := x.X.(*ssa.Alloc); ok && x.Low == nil && x.High != nil && vConstInt(0)(x.High) {
+			_, isArr := derefT(al.Type()).Underlying().(*types.Array)
+			return isArr
+		}
+	}
+	return false
 }
